@@ -2,7 +2,7 @@
 import json
 
 
-def crash_target_on_request(run, p, limit=1, delay=(0.0, 0.6), keep=()):
+def crash_target_on_request(run, p, limit=1, delay=(0.0, 0.6), keep=(), reboot_p=0.0, down=(0.2, 6.0), stops=False):
     """ With probability p, the target of a start request crashes around the delivery of that request
     (before the STARTING event can come back). """
     w, rng = run.world, run.rng
@@ -25,6 +25,12 @@ def crash_target_on_request(run, p, limit=1, delay=(0.0, 0.6), keep=()):
     def crash(target, namespec):
         w.emit('fault', kind_='crash_target_on_request', target=target, namespec=namespec)
         w.crash_instance(target)
+        if rng.random() < reboot_p:
+            # the Supervisor of the target is restarted, possibly quicker than the failure detection of its peers
+            back = rng.uniform(*down)
+            w.at(w.now + back, w.start_instance, target)
+            run.reboot_until = max(getattr(run, 'reboot_until', 0.0), w.now + back)
+            run.count('injected_target_restarts')
         if hasattr(run, 'lost'):
             run.lost.add(target)
         if hasattr(run, 'injected'):
@@ -32,6 +38,8 @@ def crash_target_on_request(run, p, limit=1, delay=(0.0, 0.6), keep=()):
                                  'vt': round(w.now - 1_700_000_000.0, 3)})
 
     w.on_hook('send_start_process', on_start)
+    if stops:
+        w.on_hook('send_stop_process', lambda inst, identifier, namespec: on_start(inst, identifier, namespec, ''))
 
 
 def drop_process_publications(run, p, kinds=('PROCESS',), only_states=None):
